@@ -66,7 +66,7 @@ CLAIMED = {
              "and checks Transparent / NoCrossTalk / WriterAtomic / Faithful / NoLoss; TLC behaviours are replayed gate by gate into the "
              "real client and server over a fragmenting, coalescing in-memory transport, every Execute result is compared with "
              "CallStep in-process on the same input (payload fidelity decided by the real CBOR codec), and every recorded hook trace "
-             "(replays, delay exploration, concurrent stress) is validated by ATPTrace.tla with the C05 invariants checked in every state.",
+             "(replays, delay exploration, concurrent stress) is validated by ATPTrace.tla with the C05 invariants checked in every state. The legacy v1 framing is spec/ATPHello.tla: a call holds the v1 mutex from its work-start to its work-done (V1Transparent, V1NoCrossTalk for serial and overlapping calls against a faithful v1 plugin; the read-lock-only deviation must exhibit cross-talk on the model); behaviours and held-gate schedules of overlapping v1 calls run on the real client over a buffering transport and are validated by ATPHelloTrace.tla.",
         note=TRUST + "Hook placement in atp/ (build tag verif); the gate scheduler's settle detection from goroutine dumps; no write stalls >= 60 s.",
         technique="TLA+ model of client+server+wires checked by TLC; schedule replay into the real code; trace validation of real sessions",
         design="5/C05", engine="tlc-exhaustive"),
@@ -90,7 +90,7 @@ CLAIMED = {
              "client scripts with concrete CBOR variants and played against the real RunATPServer in a supervised child process; "
              "seeded grammar scripts beyond the model (3 runs, 8 messages, duplicate run IDs) and EVERY byte offset of base scripts as "
              "truncation point are run; oracles: process alive, RunATPServer returns, terminal messages per run = accepted work-starts; "
-             "every session without duplicate run IDs is validated by ATPTrace.tla.",
+             "every session without duplicate run IDs is validated by ATPTrace.tla. The server's handshake (SelfSerialize, start message, hello) against any first message, end of input and failing output is the SSpec part of spec/ATPHello.tla (SrvOneError, HelloAfterStart, SrvTotal, liveness), replayed into RunATPServer - also with a plugin that cannot describe itself - and validated by ATPHelloTrace.tla.",
         note=TRUST + "Hook placement in atp/ (build tag verif); the client keeps reading until the output closes; 60 s send timeout and "
              "context cancellation not driven; duplicate run IDs only with the counting oracle.",
         technique="TLA+ model of the server against a nondeterministic client environment checked by TLC; projected scripts and "
@@ -104,7 +104,7 @@ CLAIMED = {
              "with unsolicited traffic, v1) every byte offset x {EOF, I/O error, byte inversion}, faults inside the hello, unsupported "
              "version, unusable schema and write-side failure at every position are enumerated; oracles: no panic, every call returns "
              "once (structural stuck detection), success only for a run whose work-done is intact by an independent per-message decode "
-             "of the same faulted bytes; scripted sessions are validated by ATPTrace.tla.",
+             "of the same faulted bytes; scripted sessions are validated by ATPTrace.tla. The handshake (ReadSchema against a correct, wrong-version, unusable-schema, wrong-kind, garbled, torso or missing hello, with the write side failing) and Execute over the legacy framing after any handshake outcome are the CSpec part of spec/ATPHello.tla (HelloHonest, NoFabrication, FailNotHang, ReturnsOnce, OneReader, liveness); sampled behaviours run on the real client and every session is validated by ATPHelloTrace.tla.",
         note=TRUST + "Hook placement in atp/ (build tag verif); corruption inside a payload string is undetectable without checksums and is "
              "judged by the independent decode; Close's 5 s bounded wait not driven.",
         technique="TLA+ model of the client against a breaking-stream environment checked by TLC; fault enumeration at every byte offset "
